@@ -245,6 +245,15 @@ func octetOf(e *Expr) (x *Expr, shift int64, ok bool) {
 		}
 		shift = c
 		e = e.Args[0]
+	} else if e.Op == "bin" && e.binOp() == "/" && e.Args[0].Op == "len" {
+		// a length shifted right is kept as its quotient by a power of two
+		if c, isC := e.Args[1].IsConst(); isC && c > 1 && c&(c-1) == 0 {
+			for c > 1 {
+				c >>= 1
+				shift++
+			}
+			e = e.Args[0]
+		}
 	}
 	keeps := func(t types.Type) bool {
 		ti := intTypeInfo(t)
